@@ -1,4 +1,6 @@
 import Dashu.Proofs.Int.Cmp
+import Dashu.Proofs.Int.Hist
+import Dashu.Proofs.Int.FloatFit
 /-
   C05 — Equality, ordering and hashing follow the mathematical value in every type.
 
@@ -107,35 +109,125 @@ theorem signed_producers_canonical (W : Nat) (hW : 1 ≤ W) (a b : SRepr) (ha : 
       show (ofNat W x.natAbs).value W ≠ 0
       rw [ofNat_value W hW]; omega⟩⟩
 
+-- ================================================================== histories: "whichever constructor or operation produced the values"
+
+/-- **history theorem (canonical form).**  Run ANY finite program of library operations —
+    constructors/decoders (`const`), `clone`, `neg`, `abs`, `!`, `sqr`, `pow`, `<<`, `>>`, `+`, `-`,
+    `*`, `/`, `%`, `&`, `|`, `^`, `ones` — over a register file of canonical values, feeding results
+    back as operands: every register ever produced (also those produced before a panic) is
+    canonical.  (The per-operation facts are the theorems of C01/C02/C09 about the same executable
+    model; decoders and raw `from_buffer`/`clone_from` are C07/C17.) -/
+theorem history_canonical (W : Nat) (hW : 4 ≤ W) (ops : List HOp) (env : List SRepr)
+    (henv : ∀ r ∈ env, SCanon W r) :
+    ∀ r ∈ (hrun W ops env).1, SCanon W r :=
+  (hrun_sound W hW ops env henv).1
+
+/-- **history theorem (values).**  The program computes exactly what the same program computes on
+    mathematical integers (`hrunSpec`: `+ - *`, truncating `/ %`, two's-complement `& | ^ !`,
+    `·2^n`, floor `/2^n`, `^`), stops at the same instruction, and panics only where the value-level
+    program does (division by zero; `pow` whose result cannot be allocated). -/
+theorem history_values (W : Nat) (hW : 4 ≤ W) (ops : List HOp) (env : List SRepr)
+    (henv : ∀ r ∈ env, SCanon W r) :
+    hrunSpec ops (env.map (·.value W)) = ((hrun W ops env).1.map (·.value W), (hrun W ops env).2) :=
+  (hrun_sound W hW ops env henv).2
+
+/-- **C05 for histories.**  For any two values ever produced by such a program — by whatever
+    sequence of operations — `==` holds exactly when the values are equal, `cmp` is the order of the
+    values (and `Equal` exactly when `==`), and the hash feeds are equal exactly when the values are. -/
+theorem history_eq_cmp_hash (W : Nat) (hW : 4 ≤ W) (ops : List HOp) (env : List SRepr)
+    (henv : ∀ r ∈ env, SCanon W r) (a b : SRepr)
+    (ha : a ∈ (hrun W ops env).1) (hb : b ∈ (hrun W ops env).1) :
+    (a.beq W b = true ↔ a.value W = b.value W) ∧
+    a.cmp b = compare (a.value W) (b.value W) ∧
+    (a.cmp b = .eq ↔ a.beq W b = true) ∧
+    (a.hashFeed W = b.hashFeed W ↔ a.value W = b.value W) ∧
+    (a.value W = b.value W → a = b) := by
+  have ca := history_canonical W hW ops env henv a ha
+  have cb := history_canonical W hW ops env henv b hb
+  exact ⟨SRepr.beq_iff W a b ca cb, SRepr.cmp_spec W a b ca cb, SRepr.cmp_eq_iff W a b ca cb,
+    SRepr.hashFeed_iff W a b ca cb, SRepr.canon_unique W a b ca cb⟩
+
+-- non-vacuity: x·y/y, (x<<70)>>70 and x+y−y rebuild the register-0 value 2^64+5 by three routes
+-- that cross the inline/heap boundary; all copies are the identical representation
+example : (hrun 64 [.mul 0 1, .div 2 1, .shl 0 70, .shr 4 70 false, .add 0 1 0, .sub 6 1 0]
+    [⟨false, .small (2 ^ 64 + 5)⟩, ⟨true, .small (2 ^ 100)⟩]).1.map (·.value 64)
+    = [2 ^ 64 + 5, -(2 ^ 100), -((2 ^ 64 + 5) * 2 ^ 100), 2 ^ 64 + 5, (2 ^ 64 + 5) * 2 ^ 70, 2 ^ 64 + 5,
+       2 ^ 64 + 5 - 2 ^ 100, 2 ^ 64 + 5] := by decide
+
 -- ================================================================== floats
 
 /-- `FBig::cmp / partial_cmp` (`repr_cmp_same_base`) is the total order of the values
     `signif · B^exp` with the infinities at the two ends — for operands of ANY precision and any
     rounding mode (the rounding mode does not occur in the function), PROVIDED every operand with a
-    limited precision `p` has at most `p` significant digits (`|signif| < B^p`; this is the invariant
-    that `FBig::from_repr` debug-asserts), and for every digit estimator `digitsUb` that is an upper
-    bound (the code's `digits_ub` f32 estimate enters only through this hypothesis). -/
+    limited precision `p` has at most `p + 1` significant digits (`|signif| < B^(p+1)`), and for every
+    digit estimator `digitsUb` that is an upper bound (the code's `digits_ub` f32 estimate enters
+    only through this hypothesis).  `p + 1`, not `p`: sums of opposite signs and quotients legitimately
+    carry one extra digit (`repr_round_sum`: "we don't shrink the extra digit"; e.g. `1230 - 1 = 1229`
+    at precision 3 — see `float_results_fit`), and the strict `>` in the shortcut tolerates exactly that. -/
 theorem float_cmp (B : Nat) (hB : 2 ≤ B) (digitsUb : Int → Nat)
     (hub : ∀ s : Int, s.natAbs < B ^ digitsUb s)
     (lhs rhs : FRepr) (prec : Option (Nat × Nat))
     (hprec : ∀ lp rp, prec = some (lp, rp) →
-      (lp ≠ 0 → lhs.signif.natAbs < B ^ lp) ∧ (rp ≠ 0 → rhs.signif.natAbs < B ^ rp)) :
+      (lp ≠ 0 → lhs.signif.natAbs < B ^ (lp + 1)) ∧ (rp ≠ 0 → rhs.signif.natAbs < B ^ (rp + 1))) :
     reprCmpSameBase B digitsUb lhs rhs prec = specFCmp B lhs rhs :=
   reprCmpSameBase_spec B hB digitsUb hub lhs rhs prec hprec
 
-/- FULL statement (no hypothesis on the digits), FALSE for the code as it is because producers exist
-   that violate the invariant (`Context::convert_base`, known finding, proposed_fixes/convert_base_round.diff):
-   theorem float_cmp_full … : reprCmpSameBase B digitsUb lhs rhs prec = specFCmp B lhs rhs            -/
+/- The statement without any hypothesis on the digits is false (`float_cmp_needs_precision_bound`);
+   `Context::convert_base` used to hand out such values (fix 02e179b). -/
 
-/-- the hypothesis `digits ≤ precision` is needed: the value `824633720832` with precision 3 (what
-    `with_base::<10>()` returns for the binary float `3·2^38` of precision 10) is ordered BELOW `2·10^6`
-    by the precision shortcut, with an exact digit counter as estimator. -/
+/-- the hypothesis is needed and sharp: with `p + 2` digits the shortcut is wrong — `9999` at
+    precision 2 is ordered BELOW `2·10^3`; and the value `824633720832` with precision 3 (what
+    `with_base::<10>()` returned for the binary float `3·2^38` before fix 02e179b) BELOW `2·10^6`.
+    With `p + 1` digits (`999` at precision 2 against `1·10^3`) the shortcut is still right. -/
 theorem float_cmp_needs_precision_bound :
-    let c : FRepr := ⟨824633720832, 0⟩
-    let b : FRepr := ⟨2, 6⟩
-    reprCmpSameBase 10 (fun s => digitsNat 10 s.natAbs) c b (some (3, 1)) = .lt ∧
-    specFCmp 10 c b = .gt ∧ ¬ (c.signif.natAbs < 10 ^ 3) := by
-  refine ⟨by decide, by decide, by decide⟩
+    reprCmpSameBase 10 (fun s => digitsNat 10 s.natAbs) ⟨9999, 0⟩ ⟨2, 3⟩ (some (2, 1)) = .lt ∧
+    specFCmp 10 ⟨9999, 0⟩ ⟨2, 3⟩ = .gt ∧
+    reprCmpSameBase 10 (fun s => digitsNat 10 s.natAbs) ⟨824633720832, 0⟩ ⟨2, 6⟩ (some (3, 1)) = .lt ∧
+    specFCmp 10 ⟨824633720832, 0⟩ ⟨2, 6⟩ = .gt ∧
+    reprCmpSameBase 10 (fun s => digitsNat 10 s.natAbs) ⟨999, 0⟩ ⟨1, 3⟩ (some (2, 1)) = .lt ∧
+    specFCmp 10 ⟨999, 0⟩ ⟨1, 3⟩ = .lt := by
+  refine ⟨by decide, by decide, by decide, by decide, by decide, by decide⟩
+
+/-- **The invariant the float operations actually guarantee is `digits ≤ precision + 1`**, not
+    `≤ precision`: every modelled producer of C03 (`Context::repr_round` = `with_precision`,
+    `mul/sqr/cubic`: at most `p` digits (`sqrt` likewise: `Float.ctxSqrt_digits_le` in C03's modules); `add/sub`: `p + 1` — the spare digit only when the
+    signs differ —; `repr_div` for a dividend that fits `rhs.digits + p`: `p + 1`) returns a value that
+    fits with one spare digit, for operands of ANY length (so also for operands that are themselves
+    `p+1`-digit results: the invariant is preserved along chains of operations).
+    [digit-length lemmas: builder-float's `Proofs/Float/Closing.lean`] -/
+theorem float_results_fit (B : Nat) (hB : 2 ≤ B) (m : Float.Mode) (c : Float.Coarse) (dub : Int → Nat)
+    (p : Nat) (hp : 1 ≤ p) (x y : Dashu.Model.Float.FRepr) (rs : Int) (hrs : rs = 1 ∨ rs = -1)
+    (hwx : x.signif = 0 → x.exp = 0) (hwy : y.signif = 0 → y.exp = 0) :
+    FitsP1 B p (Float.reprRound B m c p x).1 ∧
+    FitsP1 B p (Float.ctxAddSub B m c dub p x y rs).1 ∧
+    (∀ fixed, FitsP1 B p (Float.ctxMul fixed B m c p x y).1 ∧ FitsP1 B p (Float.ctxSqr fixed B m c p x).1 ∧
+      FitsP1 B p (Float.ctxCubic fixed B m c p x).1) ∧
+    (y.signif ≠ 0 → x.digits B ≤ y.digits B + p →
+      ∃ r, Float.reprDiv B m p x y = .ok r ∧ FitsP1 B p r.1) := by
+  refine ⟨?_, (Float.ctxAddSub_digits_le B hB m c dub p hp x y rs hrs hwx hwy).1, fun fixed => ⟨?_, ?_, ?_⟩, ?_⟩
+  · exact Nat.le_succ_of_le (Float.reprRound_digits_le B hB m c p hp x)
+  · exact Nat.le_succ_of_le (Float.ctxMul_digits_le fixed B hB m c p hp x y)
+  · exact Nat.le_succ_of_le (Float.ctxSqr_digits_le fixed B hB m c p hp x)
+  · exact Nat.le_succ_of_le (Float.ctxCubic_digits_le fixed B hB m c p hp x)
+  · intro hy hfit
+    obtain ⟨r, e, h, _⟩ := Float.reprDiv_digits_le B hB m p hp x y hy hfit
+    exact ⟨r, e, h⟩
+
+/-- hence comparison of any two such results (of any precisions `pa`, `pb ≥ 1`, any rounding modes —
+    the mode does not occur in the comparison) is the order of their exact values -/
+theorem float_cmp_of_results (B : Nat) (hB : 2 ≤ B) (digitsUb : Int → Nat)
+    (hub : ∀ s : Int, s.natAbs < B ^ digitsUb s) (a b : Dashu.Model.Float.FRepr) (pa pb : Nat)
+    (ha : FitsP1 B pa a) (hb : FitsP1 B pb b) :
+    reprCmpSameBase B digitsUb (ofFloatRepr a) (ofFloatRepr b) (some (pa, pb))
+      = specFCmp B (ofFloatRepr a) (ofFloatRepr b) :=
+  reprCmp_of_fits B hB digitsUb hub a b pa pb ha hb
+
+/-- the spare digit does occur — `1230 − 1` at precision 3 (HalfEven) is returned as the EXACT
+    4-digit value `1229` (flag `none`): a value that violates the documented precondition of
+    `FBig::from_repr` (`digits ≤ precision`, debug-asserted there) but still satisfies `FitsP1` -/
+theorem float_spare_digit_occurs :
+    Float.ctxAddSub 10 .halfEven Float.coarseNone (fun s => Float.digitsI 10 s) 3 ⟨123, 1⟩ ⟨1, 0⟩ (-1)
+      = (⟨1229, 0⟩, none) := by decide
 
 /-- `Repr::normalize` returns the canonical representation of the same value: significand not
     divisible by the base, zero as `0·B^0`, never an infinity -/
